@@ -279,7 +279,7 @@ def c18(tier, replay):
     vs = wire.generate(tier, light=True)
     for st in vs.stats:
         rep.add_tlc(st)
-    groups = wire.group_vectors(vs)
+    groups = [g for g in wire.group_vectors(vs) if '"flt"' not in json.dumps(g["cons"])]   # float text is excluded
     rnd = random.Random(wire.seed())
     cap = 500 if tier == "quick" else 6000
     if len(groups) > cap:
@@ -362,3 +362,41 @@ def c08(tier, replay):
 
 def c09(tier, replay):
     return _run_raw("C09", tier, ["swap"], RULE + "; evaluations = swap cases (one per enumerated value)")
+
+
+# ---------------------------------------------------------------------------
+# --replay for the wire family: the failing schema alone, all its values
+# ---------------------------------------------------------------------------
+REPLAY_LEGS = {
+    "C01": [("py", ["enc"])], "C02": [("py", ["dec"])], "C03": [("cpp", ["compat"])],
+    "C04": [("py", ["layout"]), ("cpp", ["ebs"])], "C05": [("cpp", ["gbs"])], "C08": [("raw", ["offsets"])],
+    "C09": [("raw", ["swap"])], "C19": [("py", ["mirror"]), ("cpp", ["mirror"])],
+}
+
+
+def replay(pid, case):
+    """Re-execute the recorded failing schema (every value TLC generates for
+    it) against the current /repo.  Exit 1 iff the property is still violated
+    for that schema."""
+    if pid not in REPLAY_LEGS or "cons" not in case or "inner_defs" not in case:
+        return None
+    rep = Report(pid, "quick")
+    rep.assumptions = ["replay of one recorded schema: %s" % case.get("schema", "")[:200]]
+    defs = case["inner_defs"] + case["cons"]
+    groups, stats = wire.generate_given([defs], max_len=3 if pid in ("C01", "C02") else 2)
+    rep.add_tlc(stats)
+    vs = wire.VectorSet()
+    vs.inner["given"] = []
+    for g in groups:
+        vs.vectors += g["vectors"]
+    for leg, checks in REPLAY_LEGS[pid]:
+        if leg == "py":
+            py_leg(rep, vs, checks)
+        elif leg == "cpp":
+            cpp_leg(rep, vs, checks, "quick")
+        else:
+            raw_leg(rep, vs, checks, "quick")
+    rep.cov["rule"] = "replay: all structural values (array lengths <= bound) of the recorded schema"
+    rep.nontrivial("replay-a")
+    rep.nontrivial("replay-b")
+    return rep.finish()
